@@ -1,8 +1,12 @@
 #!/bin/bash
-# usage: mut.sh <property> <file> <python-regex-from> <to>   -- applies a one-off textual mutation to /repo, runs the quick check, reverts
+# usage: mut.sh <property> <file> <python-regex-from> <to>
+# applies a one-off textual mutation in a scratch worktree of /repo (never /repo itself), runs the quick check against it
 prop=$1; file=$2; from=$3; to=$4
-cd /repo || exit 2
-if [ -n "$(git status --porcelain)" ]; then echo "repo dirty"; exit 2; fi
+WT=/tmp/wt_main
+head=$(git -C /repo rev-parse HEAD)
+if [ ! -d $WT ]; then git -C /repo worktree add -q --detach $WT HEAD || exit 2; fi
+git -C $WT checkout -q -- . ; git -C $WT checkout -q --detach $head || exit 2
+cd $WT || exit 2
 python3 - "$file" "$from" "$to" <<'PY'
 import sys,re
 p,fr,to=sys.argv[1:4]
@@ -14,6 +18,6 @@ PY
 rc=$?
 if [ $rc -eq 0 ]; then
   GOFLAGS=-mod=mod GOPROXY=off go build ./... 2>&1 | head -5
-  (cd /verif && ./bin/lachk -property $prop -tier quick | grep -v "^ok" | cut -c1-400)
+  (cd /verif && ./bin/lachk -property $prop -tier quick -repo $WT -verif /tmp/mut_out | grep -v "^ok" | cut -c1-400)
 fi
-git checkout -- . 
+git -C $WT checkout -q -- .
